@@ -172,3 +172,13 @@ contract('Client.starttls', module=M, props=['C10'],
          checks=['ncalls("Client.custom_command") == 1',
                  'iff(ncalls("Client.encrypt") == 1, result.code == "220")', 'ncalls("Client.encrypt") <= 1'],
          raises=CL_RAISES, modifies=CL_MOD)
+
+from pyvc.registry import bounded
+bounded(['C06'], 'bounded/relay_hop.py',
+        'one relay hop end to end over a loopback socket: real StaticSmtpRelay / SmtpRelayClient / smtp.Client against the '
+        'real SmtpEdge / SmtpSession / smtp.Server -- 13 sender shapes (null sender, quoted local parts with @ > \\" and '
+        'spaces, address literals, parameter look-alikes), 10 recipient shapes and lists of up to 10 (duplicates, order), '
+        '3 UTF-8 addresses, 3 header blocks x 12 bodies (dot lines, bare LF, lone CR, no final newline, command look-alikes) '
+        '+ 3 raw 8-bit bodies, connection reuse: same sender, same recipients in order, byte-identical header block and body '
+        '(modulo the final CRLF), success reported iff exactly one message was queued; 6 extension sets built by '
+        'Extensions.build_string are parsed back by parse_string to exactly the advertised names and parameters')
